@@ -102,7 +102,8 @@ def run_selectors(ctx, path, raw, label):
     exprs, pending = [], []
     for tname, (mk, rawtab, allf) in tabs.items():
         n = len(next(iter(rawtab.values())))
-        subsets = [None, allf[1], [allf[0]], [allf[-1], allf[0]] if len(allf) == 2 else [allf[-1], allf[1]]]
+        # every column alone as a string (-> Series), singleton and two-column lists, and all columns
+        subsets = [None] + list(allf) + [[allf[0]], [allf[-1], allf[0]] if len(allf) == 2 else [allf[-1], allf[1]]]
         bounds = [None] + list(range(-n, n + 1))
         if n > 9:
             bounds = [None, -n, -n + 1, -3, -1, 0, 1, 2, n // 2, n - 1, n]
